@@ -74,8 +74,22 @@ let load_fen (fen : string) : (Position.pos, string) Stdlib.result =
   | Base.Ok (Fen.FenErr e) -> Error ("REJ " ^ string_of_int (int_of_z e))
   | Base.Ok (Fen.FenOk p) -> Stdlib.Ok p
 
+let find_sub (s : string) (sub : string) : int option =
+  let n = Stdlib.String.length s and m = Stdlib.String.length sub in
+  let rec go i = if i + m > n then None else if Stdlib.String.sub s i m = sub then Some i else go (i + 1) in go 0
+
+(* "startpos", a FEN, or either followed by " moves m1 m2 ..." (played through Uci.apply_uci) *)
 let start_of (s : string) : (Position.pos, string) Stdlib.result =
-  if s = "startpos" then Stdlib.Ok Position.startpos else load_fen s
+  let base, moves = match find_sub s " moves " with
+    | Some i -> Stdlib.String.sub s 0 i, Stdlib.String.split_on_char ' ' (Stdlib.String.sub s (i + 7) (Stdlib.String.length s - i - 7))
+    | None -> s, [] in
+  let p0 = if base = "startpos" then Stdlib.Ok Position.startpos else load_fen base in
+  Stdlib.List.fold_left (fun acc m -> match acc with
+    | Error e -> Error e
+    | Stdlib.Ok p -> if m = "" then Stdlib.Ok p else
+      (match Uci.parse_move (coq_string m) with
+       | None -> Error "BADTEXT"
+       | Some mv -> (match Uci.apply_uci p mv with Base.Panic w -> Error (panic_text w) | Base.Ok p' -> Stdlib.Ok p'))) p0 moves
 
 let do_pos (p : Position.pos) : string =
   match Gen.gen_legal p, Gen.gen_tactical p with
@@ -208,9 +222,34 @@ let do_session (script : string) : string =
          else (if rest <> [] then Buffer.add_char buf ';'; go s' rest)) in
   go Session.sess0 lines
 
+let fnv64 (s : string) : string =
+  let h = ref 0xcbf29ce484222325L in
+  Stdlib.String.iter (fun c -> h := Int64.logxor !h (Int64.of_int (Char.code c)); h := Int64.mul !h 0x100000001b3L) s;
+  Printf.sprintf "%016Lx" !h
+
+(* every legal move of the position: digest of the successor snapshot and of its legal move set *)
+let do_succ (p : Position.pos) : string =
+  match Gen.gen_legal p with
+  | Base.Panic w -> panic_text w
+  | Base.Ok legal ->
+    let rows = Stdlib.List.map (fun (r : Gen.rmove) ->
+      let t = mv_text r.Gen.rm in
+      match Uci.parse_move (coq_string t) with
+      | None -> t ^ ":BADTEXT"
+      | Some m ->
+        (match Uci.apply_uci p m with
+         | Base.Panic w -> t ^ ":" ^ panic_text w
+         | Base.Ok p' ->
+           (match Gen.gen_legal p' with
+            | Base.Panic w -> t ^ ":" ^ fnv64 (snapshot p') ^ ":" ^ panic_text w
+            | Base.Ok l2 -> t ^ ":" ^ fnv64 (snapshot p') ^ ":" ^ fnv64 (sorted_join (Stdlib.List.map rmv_text l2))
+                             ^ (if WF.wf_legal p' then "" else ":NOTWF")))) legal in
+    "OK|" ^ sorted_join rows
+
 let handle (line : string) : string =
   match Stdlib.String.split_on_char '\t' line with
   | ["POS"; fen] -> (match load_fen fen with Error e -> e | Stdlib.Ok p -> do_pos p)
+  | ["SUCC"; fen] -> (match load_fen fen with Error e -> e | Stdlib.Ok p -> do_succ p)
   | ["SPEC"; fen] -> (match load_fen fen with Error e -> e | Stdlib.Ok p -> do_spec p)
   | ["FEN"; hx] -> (match load_fen (unhex hx) with Error e -> e | Stdlib.Ok p -> "OK|" ^ snapshot p)
   | ["GAME"; start; moves] -> do_game start (if moves = "" then [] else Stdlib.String.split_on_char ' ' moves)
